@@ -1,4 +1,5 @@
 import WV.Model.C12
+import WV.Model.ClientData
 
 /-! Line-protocol driver over the executable models.  First stdin line names the model
     (`C12`, …); every following line is one operation; one output line per operation. -/
@@ -12,6 +13,7 @@ partial def readAll (h : IO.FS.Stream) (acc : Array String) : IO (Array String) 
 def dispatch (which : String) (lines : List String) : List String :=
   match which with
   | "C12" => WV.C12.driver lines
+  | "CLIENT" => WV.ClientData.driver lines
   | _ => ["unknown-model " ++ which]
 
 def main : IO Unit := do
